@@ -313,8 +313,17 @@ def jobs(tier, seed):
                         for arrows in (True, False):
                             for chunk in range(nchunk):
                                 specs.append(("profile", backend, model, vv, par, sm, arrows, chunk, nchunk, tier))
+                    # what plot_profile draws for the same specifications (scipy, quick tier: first parameter, the profiler's default subtract_min)
+                    if backend == "scipy" and tier == "quick" and par != pars[0]:
+                        continue
+                    for sm in (True, False) if (backend == "iminuit" or tier == "thorough") else (True,):
+                        nplot = 4 if backend == "scipy" else 1
+                        for chunk in range(nplot):
+                            specs.append(("pplot", backend, model, vv, par, sm, chunk, nplot, tier))
         for model in ("lin", "quad"):
             specs.append(("contour", model, vv, tier))
+            specs.append(("cplot", model, vv, "contours", tier))
+            specs.append(("cplot", model, vv, "matrix", tier))
             npairs = len(_pairs(model))
             # scipy backend: the default grid algorithm per parameter pair, the start of the beacon walk for all pairs in one job
             for k in range(npairs):
@@ -329,7 +338,7 @@ def jobs(tier, seed):
                     for sg in _scontour_sigmas("beacon", tier):
                         specs.append(("scontour", "beacon", model, vv, (k,), (sg,), tier))
     # heavy (scipy) jobs first; job 0 (re-run for the determinism check) is a light one that fits and profiles
-    specs.sort(key=lambda s: 0 if (s[0] == "scontour" and s[1] == "beacon") else 1 if (s[0] == "profile" and s[1] == "scipy") else 2 if s[0] == "scontour" else 3)
+    specs.sort(key=lambda s: 0 if (s[0] == "scontour" and s[1] == "beacon") else 1 if (s[0] in ("profile", "pplot") and s[1] == "scipy") else 2 if s[0] == "scontour" else 3)
     k = [i for i, s in enumerate(specs) if s[0] == "profile" and s[1] == "iminuit"][0]
     specs.insert(0, specs.pop(k))
     return specs
@@ -343,11 +352,15 @@ def bound(tier, seed):
         "conversions: n = 1..8 x 800 sigma values (0.01..8.00) x 2000 CL values (logit -30..30), all enumerated; "
         "profile arrows: 2 backends x models {lin, quad} x %s x %d interval specifications x subtract_min {F,T} x arrows {F,T}; "
         "profiled interval [x_first, x_last] and the cost at both ends for every one of these cases, public get_profile on iminuit; "
+        "plot_profile: the same backends x models x parameters x interval specifications x profile_subtract_min %s (line, arrows and percentages read from the figure, get_profile for the same request); "
+        "plot_contours: iminuit, all parameter pairs x naming {sigma, cl} x %d sigma values, plot_profiles_contours_matrix {lower triangle, full} (quick tier, quad: naming alternates over the pairs, lower triangle only); "
         "contour: iminuit, all parameter pairs of both models x %d sigma values; scipy: heuristic grid with 3 refinement steps x all pairs x %d sigma values, "
         "start point of the beacon walk x all pairs x %d sigma values%s; valuation(s) %s"
         % (
             "all parameters" if tier == "thorough" else "parameters {a, b} of lin and {b} of quad",
             len(SPECS_QUICK) + (len(SPECS_MORE) if tier == "thorough" else 0),
+            "{F,T}" if tier == "thorough" else "{F,T} (scipy: first parameter, T = the default)",
+            len(_cplot_sigmas(tier)),
             len(_contour_sigmas(tier)),
             len(_scontour_sigmas("grid3", tier)),
             len(_scontour_sigmas("beacon-start", tier)),
@@ -827,6 +840,8 @@ def run_profile(res, backend, model, v, par, sm, arrows_list, chunk, nchunk, tie
 TOL_PLOT_CL = 5.1e-5  # the outside probability is written next to its arrow in percent with two decimals ('#.2g' below 0.1 %)
 TOL_PLOT_LABEL = 5.1e-4  # legend label of a contour: '%g' of sigma resp. '%.4g' of 100 cl, relative
 PLOT_POINTS = 5
+CPLOT_POINTS = 24  # points per contour line (the default of 100 costs 0.3 s per contour of a three-parameter fit)
+TOL_PLOT_REPEAT = 1e-7  # drawn profile against get_profile on a second fit built the same way, in uncertainties: measured 0
 _PCT = re.compile(r"\$([0-9.eE+-]+)\\%\$")
 _LABEL_SIGMA = re.compile(r"([0-9.eE+-]+)\$\\sigma\$ contour")
 _LABEL_CL = re.compile(r"\$([0-9.eE+-]+)\\%\$ CL contour")
@@ -897,10 +912,13 @@ def run_pplot_case(backend, model, v, par, sm, spec):
             plt.close("all")
         if "xs" not in out:
             return out
-        # the numeric profile for the same request from the same profiler (iminuit; scipy: when no root has to be searched)
+        # the numeric profile for the same request from a fit in the same state, i.e. a fresh one: a scan on the iminuit backend
+        # leaves the fit with slightly different uncertainties (up to 1 %), which is not the subject of this property
+        # (iminuit; scipy: when no root has to be searched)
         if backend == "iminuit" or spec_parts(spec)["cls"] is None:
             try:
-                gp = cp.get_profile(par, **kw)
+                fit2, _p2 = build_fit(model, v, backend)
+                gp = ContoursProfiler(fit2, profile_points=PLOT_POINTS, profile_subtract_min=sm).get_profile(par, **kw)
                 out["gp_xs"] = [float(t) for t in gp[0]]
                 out["gp_ys"] = [float(t) for t in gp[1]]
             except Exception as e:  # noqa: BLE001
@@ -923,7 +941,7 @@ def judge_pplot(spec, sm, o):
         bad.append(("get_profile", "no exception", o["gp_exc"], "exception:" + o["gp_exc"].split(":")[0]))
     elif "gp_xs" in o:
         g = o["gp_xs"]
-        tol = (TOL_ARROW_X if spec_parts(spec)["cls"] is not None else 1e-7) * o["ref_err"]
+        tol = (TOL_ARROW_X if spec_parts(spec)["cls"] is not None else TOL_PLOT_REPEAT) * o["ref_err"]
         if not expected_arrows(spec, True):
             # nothing to mark, no margin: the drawn profile is the numeric one
             if not (len(g) == len(xs) and np.allclose(g, xs, rtol=0, atol=tol)):
@@ -967,7 +985,9 @@ def run_pplot(res, backend, model, v, par, sm, chunk, nchunk, tier):
 
 # ---- contour plots (iminuit)
 
-CPLOT_SIGMAS = (0.5, 1.0, 2.0, 3.0)
+def _cplot_sigmas(tier):
+    # one contour of the three-parameter fit costs 0.25 s
+    return [1.0, 2.5] if tier == "quick" else [0.5, 1.0, 2.0, 3.0]
 
 
 def _read_contour_axes(axes):
@@ -1002,18 +1022,18 @@ def _contour_levels(p, pair, polys, sigmas, naming):
     return levels
 
 
-def run_cplot_case(model, v, case):
+def run_cplot_case(model, v, case, sigmas):
     """case = ('contours', pair, naming) | ('matrix', full_matrix, naming); iminuit backend.
     -> dict(cells={(row, col) as 'r,c': dict(pair, levels) | dict(par, xs, gp_xs, markers)})"""
     from kafe2 import ContoursProfiler
 
     plt = _plt()
     fit, p = build_fit(model, v, "iminuit")
-    sigmas = list(CPLOT_SIGMAS)
+    sigmas = [float(t) for t in sigmas]
     out = dict(cells={})
     with warnings.catch_warnings():
         warnings.simplefilter("ignore")
-        cp = ContoursProfiler(fit, profile_points=PLOT_POINTS, contour_sigma_values=tuple(sigmas))
+        cp = ContoursProfiler(fit, profile_points=PLOT_POINTS, contour_points=CPLOT_POINTS, contour_sigma_values=tuple(sigmas))
         try:
             if case[0] == "contours":
                 _kind, pair, naming = case
@@ -1025,14 +1045,17 @@ def run_cplot_case(model, v, case):
                 fig = cp.plot_profiles_contours_matrix(full_matrix=full, contour_naming_convention=naming)
                 cells = _axes_cells(fig)
                 out["n_cells"] = len(cells)
+                # the numeric profiles without arguments, from a fresh fit in the order in which the matrix scans the parameters
+                fit2, _p2 = build_fit(model, v, "iminuit")
+                cp2 = ContoursProfiler(fit2, profile_points=PLOT_POINTS)
+                gps = [cp2.get_profile(n) for n in names]
                 for (r, c), ax in sorted(cells.items()):
                     if r == c:
                         try:
                             cell = dict(par=names[r], **_read_profile_axes(ax))
                         except ValueError as e:
                             cell = dict(par=names[r], layout=str(e))
-                        gp = cp.get_profile(names[r])
-                        cell["gp_xs"], cell["gp_ys"] = [float(t) for t in gp[0]], [float(t) for t in gp[1]]
+                        cell["gp_xs"], cell["gp_ys"] = [float(t) for t in gps[r][0]], [float(t) for t in gps[r][1]]
                     else:
                         pair = (names[c], names[r])  # x axis: the parameter of the column
                         cell = dict(pair=list(pair), levels=_contour_levels(p, pair, _read_contour_axes(ax), sigmas, naming))
@@ -1044,11 +1067,10 @@ def run_cplot_case(model, v, case):
     return out
 
 
-def judge_cplot(model, case, o):
+def judge_cplot(model, case, sigmas, o):
     if "exc" in o:
         return [("plot", "no exception", o["exc"], "exception:" + o["exc"].split(":")[0])]
     bad = []
-    sigmas = list(CPLOT_SIGMAS)
     naming = case[2]
     npar = len(MODELS[model][1])
     if case[0] == "matrix":
@@ -1063,7 +1085,7 @@ def judge_cplot(model, case, o):
             if cell["arrows"]:
                 bad.append(("matrix.profile.markers", [], [(a["side"], a["cl"]) for a in cell["arrows"]], "wrong-value"))
             g, xs = cell["gp_xs"], cell["xs"]
-            if not (len(g) == len(xs) and np.allclose(g, xs, rtol=0, atol=1e-9 * (xs[-1] - xs[0]))):
+            if not (len(g) == len(xs) and np.allclose(g, xs, rtol=0, atol=TOL_PLOT_REPEAT * (xs[-1] - xs[0]))):
                 bad.append(("matrix.profile.range=get_profile", [g[0], g[-1]], [xs[0], xs[-1]], "wrong-value"))
             elif not np.allclose(cell["gp_ys"], cell["ys"], rtol=0, atol=TOL_RANGE_COST * max(1.0, max(cell["ys"]) - min(cell["ys"]))):
                 bad.append(("matrix.profile.cost=get_profile", cell["gp_ys"], cell["ys"], "wrong-value"))
@@ -1080,20 +1102,23 @@ def judge_cplot(model, case, o):
     return bad
 
 
-def cplot_cases(model, what):
+def cplot_cases(model, what, tier):
+    """quick tier, three-parameter model: the naming convention alternates over the pairs instead of the product, one matrix"""
+    small = tier == "thorough" or len(MODELS[model][1]) == 2
     if what == "contours":
-        return [("contours", pair, naming) for pair in _pairs(model) for naming in ("sigma", "cl")]
-    return [("matrix", False, "sigma"), ("matrix", True, "cl")]
+        return [("contours", pair, naming) for k, pair in enumerate(_pairs(model)) for j, naming in enumerate(("sigma", "cl")) if small or (k + j) % 2 == 0]
+    return [("matrix", False, "sigma"), ("matrix", True, "cl")] if small else [("matrix", False, "cl")]
 
 
-def run_cplot(res, model, v, what):
-    for case in cplot_cases(model, what):
-        o = run_cplot_case(model, v, case)
+def run_cplot(res, model, v, what, tier):
+    sigmas = _cplot_sigmas(tier)
+    for case in cplot_cases(model, what, tier):
+        o = run_cplot_case(model, v, case, sigmas)
         res.executions += 1
         res.transitions += 3 + len(o["cells"])
         key = ("cplot", model, v, repr(case))
         res.state(key)
-        bad = judge_cplot(model, case, o)
+        bad = judge_cplot(model, case, sigmas, o)
         n_lev = 0
         for name, cell in o["cells"].items():
             res.state(key + (name,))
@@ -1108,14 +1133,14 @@ def run_cplot(res, model, v, what):
             res.nontriv(key)
         res.observe((key, sorted((n, [(lev["label"], round(lev.get("geom", -1.0), 4)) for lev in c["levels"]] if "levels" in c else [round(t, 6) for t in c.get("xs", [])]) for n, c in o["cells"].items()), o.get("exc")))
         res.outcomes[("cplot", model, case[0], case[2], "MISMATCH" if bad else "ok")] += 1
-        hist = dict(kind="cplot", model=model, v=v, case=[case[0], list(case[1]) if isinstance(case[1], tuple) else case[1], case[2]])
+        hist = dict(kind="cplot", model=model, v=v, sigmas=list(sigmas), case=[case[0], list(case[1]) if isinstance(case[1], tuple) else case[1], case[2]])
         seen = set()
         for obs_name, exp, act, mode in bad:
             if obs_name in seen:
                 continue
             seen.add(obs_name)
             res.violation("plot_%s|iminuit|%s|%s" % (case[0], model, case[2]), hist, obs_name, exp, act, mode)
-    res.sample(dict(kind="cplot", model=model, valuation=v, what=what, sigmas=list(CPLOT_SIGMAS)))
+    res.sample(dict(kind="cplot", model=model, valuation=v, what=what, sigmas=list(sigmas)))
 
 
 # ----------------------------------------------------------------------------------------------------------------------
@@ -1412,6 +1437,12 @@ def run_job(spec):
     elif kind == "profile":
         _, backend, model, v, par, sm, arrows, chunk, nchunk, tier = spec
         run_profile(res, backend, model, v, par, sm, [arrows], chunk, nchunk, tier)
+    elif kind == "pplot":
+        _, backend, model, v, par, sm, chunk, nchunk, tier = spec
+        run_pplot(res, backend, model, v, par, sm, chunk, nchunk, tier)
+    elif kind == "cplot":
+        _, model, v, what, tier = spec
+        run_cplot(res, model, v, what, tier)
     elif kind == "contour":
         _, model, v, tier = spec
         run_contour(res, model, v, tier)
@@ -1457,6 +1488,21 @@ def replay(history):
         o = run_profile_case(h["backend"], h["model"], h["v"], h["par"], bool(h["subtract_min"]), bool(h["arrows"]), spec)
         bad = judge_profile(spec, bool(h["subtract_min"]), bool(h["arrows"]), o)
         out = [dict(observable=c.split(":")[0], expected=e, actual=a, mode=m) for c, e, a, m in bad]
+    elif kind == "pplot":
+        spec = tuple(h["spec"])
+        o = run_pplot_case(h["backend"], h["model"], h["v"], h["par"], bool(h["subtract_min"]), spec)
+        bad = judge_pplot(spec, bool(h["subtract_min"]), o)
+        out = [dict(observable=c.split(":")[0], expected=e, actual=a, mode=m) for c, e, a, m in bad]
+    elif kind == "cplot":
+        c = h["case"]
+        case = (c[0], tuple(c[1]) if isinstance(c[1], list) else c[1], c[2])
+        sig = [float(t) for t in h["sigmas"]]
+        o = run_cplot_case(h["model"], h["v"], case, sig)
+        seen, out = set(), []
+        for c_, e, a, m in judge_cplot(h["model"], case, sig, o):
+            if c_ not in seen:
+                seen.add(c_)
+                out.append(dict(observable=c_, expected=e, actual=a, mode=m))
     elif kind == "scontour":
         sig = [float(t) for t in h["sigmas"]]
         o = run_scontour_case(h["algo"], h["model"], h["v"], tuple(h["pair"]), sig)
@@ -1479,6 +1525,11 @@ def vacuity_guards(tot, tier):
     yield "the cl keyword reaching Minuit.mncontour was observed", tot.facts.get("mncontour-observed", 0) > 0
     yield "profiled interval compared exactly at more than 100 ends, for specifications with and without a confidence level", tot.facts.get("profile-range-ends:exact", 0) > 100 and tot.facts.get("profile-range-kind:cl", 0) > 0 and tot.facts.get("profile-range-kind:no-cl", 0) > 0
     yield "public get_profile compared", tot.facts.get("profile-public-route", 0) > 0
+    yield "plot_profile read on both backends, for every kind of specification, with and without markers", tot.facts.get("plot-profile:iminuit", 0) > 0 and tot.facts.get("plot-profile:scipy", 0) > 0 and tot.facts.get("plot-profile-without-markers", 0) > 0 and all(
+        tot.facts.get("plot-profile-spec:" + k, 0) > 0 for k in ("central", "low+cl", "high+cl", "low", "high", "low+high", "sigma", "sigma+cl", "sigma+low")
+    )
+    yield "more than 100 drawn markers compared, drawn profile compared with get_profile", tot.facts.get("plot-profile-markers-compared", 0) > 100 and tot.facts.get("plot-profile-vs-get_profile", 0) > 0
+    yield "contour polygons read from plot_contours and the matrix plot under both naming conventions", tot.facts.get("plot-contour-labels:sigma", 0) > 0 and tot.facts.get("plot-contour-labels:cl", 0) > 0 and tot.facts.get("plot-matrix-profiles", 0) > 0
     yield "scipy contours at a level other than 1 sigma obtained from the grid and the beacon algorithm", tot.facts.get("scipy-contour-level-not-1:grid", 0) > 0 and tot.facts.get("scipy-contour-level-not-1:beacon", 0) > 0
     yield "more than 20 outcome classes", len(tot.outcomes) > 20
 
